@@ -134,6 +134,37 @@ def run(ctx, deep, model_ok):
         if n in G.names:
             ctx.violation('failing-input', 'unused_name() returned an identifier in use', {'kind': 'unused', 'names': G.names}, None, n)
         G.add_line('S\t%s\t*' % n)
+    # an identifier carried by a line that is not a segment, mentioned where a segment is required: the addition is refused
+    # (how much it leaves behind is the recorded finding F51); the identifiers stay unique and the lookup keeps answering
+    # with the line that carries the identifier
+    holders = {'gfa1': ['P\tn\tA+,B+\t*'],
+               'gfa2': ['E\tn\tA+\tB+\t7\t10$\t0\t3\t*', 'G\tn\tA+\tB-\t5\t*', 'U\tn\tA B', 'O\tn\tA+ B+']}
+    users = {'gfa1': ['L\tA\t+\tn\t-\t*', 'L\tn\t+\tB\t-\t*', 'C\tA\t+\tn\t+\t0\t*', 'C\tn\t+\tB\t+\t0\t*', 'P\tq\tA+,n+\t*'],
+             'gfa2': ['E\t*\tA+\tn+\t7\t10$\t0\t3\t*', 'E\t*\tn-\tB+\t0\t3\t0\t3\t*', 'G\t*\tA+\tn-\t5\t*', 'G\t*\tn+\tB-\t5\t*',
+                      'F\tn\tr+\t0\t3\t0\t3\t*']}
+    for ver in ('gfa1', 'gfa2'):
+        for h in holders[ver]:
+            for u in users[ver]:
+                segs = ['S\tA\t*', 'S\tB\t*', 'L\tA\t+\tB\t+\t*'] if ver == 'gfa1' else ['S\tA\t10\t*', 'S\tB\t10\t*']
+                G = g.Gfa(version=ver, vlevel=1)
+                for l in segs + [h]:
+                    G.add_line(l)
+                holder = G.line('n')
+                r = impl.outcome(lambda: G.add_line(u))
+                case = {'kind': 'history', 'version': ver, 'vlevel': 1, 'ops': [('add', l) for l in segs + [h, u]]}
+                ctx.count(case, True)
+                names = impl.value_or(lambda: list(G.names), [])
+                what = None
+                if r[0] == 'ok':
+                    what = 'a line naming, where a segment is required, the identifier of a %s line was accepted' % h[0]
+                elif r[1][0] != 'gfapy':
+                    what = 'adding such a line raised a foreign exception'
+                elif len(names) != len(set(names)):
+                    what = 'identifiers are not pairwise distinct after the refusal'
+                elif impl.value_or(lambda: G.line('n'), None) is not holder:
+                    what = 'the identifier no longer leads to the line that carries it'
+                if what:
+                    ctx.violation('failing-input', what, case, 'NotUniqueError, identifiers unchanged', impl.outcome_name(r), python=GC.py_of(case))
     # known finding F17
     G = g.Gfa(['S\tA\t*', 'S\tB\t*', 'L\tA\t+\tB\t+\t1M\tID:Z:x'])
     r = impl.outcome(lambda: G.add_line('L\tB\t+\tA\t+\t2M\tID:Z:x'))
